@@ -436,7 +436,7 @@ def symbol_delete(sym):
     """Delete symbol.  This is useful if a symbol needs to be redefined
     with different assumptions."""
 
-    state.symbols.pop(sym)
+    state.symbols.delete(sym)
 
 
 def symbol_map(name):
